@@ -1,6 +1,1467 @@
-//! C01 — not built yet.
+//! C01 — wire decoding is total: any bytes give Ok or Err, never a panic or a hang; decoded names
+//! are ≤ 255 octets with labels ≤ 63.
+//!
+//! Case lines (a trailing `!` on the op = implementation-vs-oracle only, no model side):
+//!   name   <buf> <pos>          Name::read at index pos
+//!   rdata  <type> <buf> <pos>   RData::read(decoder at pos, RecordType::from(type))
+//!   record <buf> <pos>          Record::read at index pos
+//!   msg    <buf>                Message::from_vec
+//!   req    <buf>                hickory_server::server::Request::from_bytes
+//!
+//! Implementation output on success is a canonical field-by-field dump (the Lean driver prints
+//! the same dump from the model's value), `err` on any `Err`.
+use std::net::SocketAddr;
+use std::sync::atomic::{AtomicU64, Ordering};
+use std::sync::{Arc, Mutex};
+use std::time::{Duration, Instant};
+
+use hickory_net::xfer::Protocol;
+use hickory_proto::dnssec::rdata::DNSSECRData;
+use hickory_proto::dnssec::PublicKey;
+use hickory_proto::op::{Edns, Message, MessageType, OpCode, Query};
+use hickory_proto::rr::rdata::opt::{EdnsCode, EdnsOption};
+use hickory_proto::rr::rdata::{A, AAAA, ANAME, CNAME, HINFO, MX, NS, NULL, OPT, PTR, SOA, SRV, TXT};
+use hickory_proto::rr::{DNSClass, Name, RData, Record, RecordType};
+use hickory_proto::serialize::binary::{BinDecodable, BinDecoder};
+use hickory_server::server::Request;
+
 use crate::common::*;
 
-pub fn run(_o: &Opts, rec: &mut Recorder) {
-    rec.rule = "stub".into();
+/// per-case time budget of the "no hang" clause (inputs are ≤ 64 KiB)
+const BUDGET: Duration = Duration::from_secs(2);
+/// the watchdog declares a true hang when one case makes no progress for this long
+const STUCK: Duration = Duration::from_secs(60);
+
+/// record types whose RDATA codec has no Lean model (must equal `Wire.unmodelled`); empty since
+/// stage 3c — kept so that a codec added to hickory can be run implementation-only first
+const UNMODELLED: &[u16] = &[];
+
+/// every RecordType code hickory knows, plus a few it does not
+const ALL_TYPES: &[u16] = &[
+    1, 28, 65305, 255, 251, 252, 257, 59, 60, 37, 5, 62, 48, 43, 13, 65, 25, 15, 35, 2, 47, 50, 51, 10, 61, 41, 12, 46,
+    24, 53, 6, 33, 44, 64, 52, 250, 16, 0, 3, 11, 99, 256, 65280, 65535,
+];
+
+fn modelled(t: u16) -> bool {
+    !UNMODELLED.contains(&t)
+}
+
+// ---------------------------------------------------------------- canonical dump
+
+fn show_opt_val(o: &EdnsOption) -> String {
+    match o {
+        EdnsOption::DAU(algs) => {
+            let v: Vec<u8> = algs.iter().map(u8::from).collect();
+            format!("D{}", hex(&v))
+        }
+        EdnsOption::Subnet(s) => {
+            let (fam, oct) = match s.addr() {
+                std::net::IpAddr::V4(a) => (1, a.octets().to_vec()),
+                std::net::IpAddr::V6(a) => (2, a.octets().to_vec()),
+            };
+            format!("S{}.{}.{}.{}", fam, s.source_prefix(), s.scope_prefix(), hex(&oct))
+        }
+        EdnsOption::NSID(p) => format!("N{}", hex(p.as_ref())),
+        EdnsOption::Unknown(c, d) => format!("U{}.{}", c, hex(d)),
+        _ => "?".into(),
+    }
+}
+
+fn show_opts(o: &[(EdnsCode, EdnsOption)]) -> String {
+    o.iter().map(|(c, v)| format!("{}={}", u16::from(*c), show_opt_val(v))).collect::<Vec<_>>().join(";")
+}
+
+fn show_rdata(d: &RData) -> String {
+    match d {
+        RData::A(a) => format!("A:{}", hex(&a.0.octets())),
+        RData::AAAA(a) => format!("AAAA:{}", hex(&a.0.octets())),
+        RData::ANAME(n) => format!("N:{}", name_tok(&n.0)),
+        RData::CNAME(n) => format!("N:{}", name_tok(&n.0)),
+        RData::NS(n) => format!("N:{}", name_tok(&n.0)),
+        RData::PTR(n) => format!("N:{}", name_tok(&n.0)),
+        RData::MX(m) => format!("MX:{}:{}", m.preference, name_tok(&m.exchange)),
+        RData::SOA(s) => format!(
+            "SOA:{}:{}:{}:{}:{}:{}:{}",
+            name_tok(&s.mname),
+            name_tok(&s.rname),
+            s.serial,
+            s.refresh,
+            s.retry,
+            s.expire,
+            s.minimum
+        ),
+        RData::TXT(t) => format!("TXT:{}", t.txt_data.iter().map(|s| hex(s)).collect::<Vec<_>>().join("|")),
+        RData::SRV(s) => format!("SRV:{}:{}:{}:{}", s.priority, s.weight, s.port, name_tok(&s.target)),
+        RData::HINFO(h) => format!("HINFO:{}:{}", hex(&h.cpu), hex(&h.os)),
+        RData::NULL(n) => format!("NULL:{}", hex(&n.anything)),
+        RData::Unknown { code, rdata } => format!("UNK:{}:{}", u16::from(*code), hex(&rdata.anything)),
+        RData::OPT(o) => format!("OPT:{}", show_opts(o.as_ref())),
+        RData::Update0(t) => format!("UPD0:{}", u16::from(*t)),
+        #[allow(deprecated)]
+        RData::ZERO => "ZERO".into(),
+        RData::TSIG(t) => show_tsig(t),
+        RData::DNSSEC(DNSSECRData::DS(d)) => {
+            format!("DS:{}:{}:{}:{}", d.key_tag(), u8::from(d.algorithm()), u8::from(d.digest_type()), hex(d.digest()))
+        }
+        RData::DNSSEC(DNSSECRData::CDS(d)) => format!(
+            "DS:{}:{}:{}:{}",
+            d.key_tag(),
+            d.algorithm().map(u8::from).unwrap_or(0),
+            u8::from(d.digest_type()),
+            hex(d.digest())
+        ),
+        RData::DNSSEC(DNSSECRData::DNSKEY(k)) => format!(
+            "DNSKEY:{}:{}:{}",
+            k.flags(),
+            u8::from(k.public_key().algorithm()),
+            hex(k.public_key().public_bytes())
+        ),
+        RData::DNSSEC(DNSSECRData::CDNSKEY(k)) => format!(
+            "DNSKEY:{}:{}:{}",
+            k.flags(),
+            k.algorithm().map(u8::from).unwrap_or(0),
+            match k.public_key() {
+                Some(pk) => hex(pk.public_bytes()),
+                None => "!".into(),
+            }
+        ),
+        RData::DNSSEC(DNSSECRData::RRSIG(s)) => show_sig_rdata(s),
+        RData::DNSSEC(DNSSECRData::SIG(s)) => show_sig_rdata(s),
+        RData::DNSSEC(DNSSECRData::NSEC(n)) => {
+            format!("NSEC:{}:{}", name_tok(n.next_domain_name()), show_types(n.type_bit_maps()))
+        }
+        RData::DNSSEC(DNSSECRData::NSEC3(n)) => format!(
+            "NSEC3:{}:{}:{}:{}:{}",
+            b(n.opt_out()),
+            n.iterations(),
+            hex(n.salt()),
+            hex(n.next_hashed_owner_name()),
+            show_types(n.type_bit_maps())
+        ),
+        RData::DNSSEC(DNSSECRData::NSEC3PARAM(n)) => {
+            format!("NSEC3PARAM:{}:{}:{}", b(n.opt_out()), n.iterations(), hex(n.salt()))
+        }
+        RData::CERT(c) => format!(
+            "CERT:{}:{}:{}:{}",
+            u16::from(c.cert_type),
+            c.key_tag,
+            u8::from(c.algorithm),
+            hex(&c.cert_data)
+        ),
+        RData::CSYNC(c) => format!("CSYNC:{}:{}:{}", c.soa_serial, c.flags(), show_types(c.type_bit_maps.iter())),
+        RData::TLSA(t) => show_tlsa(t),
+        RData::SMIMEA(t) => show_tlsa(&t.0),
+        RData::SSHFP(x) => format!(
+            "SSHFP:{}:{}:{}",
+            u8::from(x.algorithm),
+            u8::from(x.fingerprint_type),
+            hex(&x.fingerprint)
+        ),
+        RData::OPENPGPKEY(k) => format!("OPENPGPKEY:{}", hex(&k.public_key)),
+        RData::DNSSEC(DNSSECRData::KEY(k)) => format!(
+            "KEY:{}:{}:{}:{}",
+            k.flags(),
+            u8::from(k.protocol()),
+            u8::from(k.algorithm()),
+            hex(k.public_key())
+        ),
+        RData::SVCB(x) => show_svcb(x),
+        RData::HTTPS(x) => show_svcb(&x.0),
+        RData::CAA(c) => format!(
+            "CAA:{}:{}:{}:{}",
+            b(c.issuer_critical),
+            c.reserved_flags,
+            hex(c.tag.as_bytes()),
+            hex(&c.value)
+        ),
+        RData::NAPTR(n) => format!(
+            "NAPTR:{}:{}:{}:{}:{}:{}",
+            n.order,
+            n.preference,
+            hex(&n.flags),
+            hex(&n.services),
+            hex(&n.regexp),
+            name_tok(&n.replacement)
+        ),
+        other => format!("X{}:?", u16::from(other.record_type())),
+    }
+}
+
+fn show_types(it: impl Iterator<Item = RecordType>) -> String {
+    it.map(|t| u16::from(t).to_string()).collect::<Vec<_>>().join(".")
+}
+
+fn show_tsig(t: &hickory_proto::rr::rdata::TSIG) -> String {
+    format!(
+        "TSIG:{}:{}:{}:{}:{}:{}:{}",
+        name_tok(&t.algorithm.to_name()),
+        t.time,
+        t.fudge,
+        hex(&t.mac),
+        t.oid,
+        t.error.map(u16::from).unwrap_or(0),
+        hex(&t.other)
+    )
+}
+
+fn show_sig_rdata(s: &hickory_proto::dnssec::rdata::SIG) -> String {
+    let i = s.input();
+    format!(
+        "SIG:{}:{}:{}:{}:{}:{}:{}:{}:{}",
+        u16::from(i.type_covered),
+        u8::from(i.algorithm),
+        i.num_labels,
+        i.original_ttl,
+        i.sig_expiration.get(),
+        i.sig_inception.get(),
+        i.key_tag,
+        name_tok(&i.signer_name),
+        hex(s.sig())
+    )
+}
+
+fn show_svcb(x: &hickory_proto::rr::rdata::SVCB) -> String {
+    use hickory_proto::rr::rdata::svcb::SvcParamValue as V;
+    let ps: Vec<String> = x
+        .svc_params
+        .iter()
+        .map(|(k, v)| {
+            let vs = match v {
+                V::Mandatory(m) => format!("M{}", m.0.iter().map(|k| u16::from(*k).to_string()).collect::<Vec<_>>().join(".")),
+                V::Alpn(a) => format!("A{}", a.0.iter().map(|s| hex(s.as_bytes())).collect::<Vec<_>>().join("|")),
+                V::NoDefaultAlpn => "N".to_string(),
+                V::Port(p) => format!("P{p}"),
+                V::Ipv4Hint(h) => {
+                    let v: Vec<u8> = h.0.iter().flat_map(|a| a.0.octets()).collect();
+                    format!("4{}", hex(&v))
+                }
+                V::EchConfigList(e) => format!("E{}", hex(&e.0)),
+                V::Ipv6Hint(h) => {
+                    let v: Vec<u8> = h.0.iter().flat_map(|a| a.0.octets()).collect();
+                    format!("6{}", hex(&v))
+                }
+                V::Unknown(u) => format!("U{}", hex(&u.0)),
+            };
+            format!("{}={}", u16::from(*k), vs)
+        })
+        .collect();
+    format!("SVCB:{}:{}:{}", x.svc_priority, name_tok(&x.target_name), ps.join(";"))
+}
+
+fn show_tlsa(t: &hickory_proto::rr::rdata::TLSA) -> String {
+    format!(
+        "TLSA:{}:{}:{}:{}",
+        u8::from(t.cert_usage),
+        u8::from(t.selector),
+        u8::from(t.matching),
+        hex(&t.cert_data)
+    )
+}
+
+fn show_record(r: &Record) -> String {
+    format!(
+        "R({},{},{},{},{})",
+        name_tok(&r.name),
+        u16::from(r.record_type()),
+        u16::from(r.dns_class),
+        r.ttl,
+        show_rdata(&r.data)
+    )
+}
+
+fn show_query(q: &Query) -> String {
+    format!("Q({},{},{})", name_tok(&q.name), u16::from(q.query_type), u16::from(q.query_class))
+}
+
+fn show_md(m: &hickory_proto::op::Metadata) -> String {
+    format!(
+        "H({},{},{},{},{},{},{},{},{},{})",
+        m.id,
+        b(m.message_type == MessageType::Response),
+        u8::from(m.op_code),
+        b(m.authoritative),
+        b(m.truncation),
+        b(m.recursion_desired),
+        b(m.recursion_available),
+        b(m.authentic_data),
+        b(m.checking_disabled),
+        u16::from(m.response_code)
+    )
+}
+
+fn show_edns(e: Option<&Edns>) -> String {
+    match e {
+        None => "-".into(),
+        Some(e) => format!(
+            "{},{},{},{},{},{}",
+            e.rcode_high(),
+            e.version(),
+            b(e.flags().dnssec_ok),
+            e.flags().z,
+            e.max_payload(),
+            show_opts(e.options().as_ref())
+        ),
+    }
+}
+
+fn show_recs(rs: &[Record]) -> String {
+    rs.iter().map(show_record).collect::<Vec<_>>().join(",")
+}
+
+fn show_sig(s: Option<&Record<hickory_proto::rr::rdata::TSIG>>) -> String {
+    match s {
+        None => "-".into(),
+        Some(r) => format!("R({},250,{},{},{})", name_tok(&r.name), u16::from(r.dns_class), r.ttl, show_tsig(&r.data)),
+    }
+}
+
+fn show_message(m: &Message) -> String {
+    format!(
+        "{} Q[{}] AN[{}] NS[{}] AR[{}] SIG[{}] EDNS[{}]",
+        show_md(&m.metadata),
+        m.queries.iter().map(show_query).collect::<Vec<_>>().join(","),
+        show_recs(&m.answers),
+        show_recs(&m.authorities),
+        show_recs(&m.additionals),
+        show_sig(m.signature.as_deref()),
+        show_edns(m.edns.as_ref())
+    )
+}
+
+fn show_request(m: &Request) -> String {
+    format!(
+        "{} Q[{}] RAW[{}] AN[{}] NS[{}] AR[{}] SIG[{}] EDNS[{}]",
+        show_md(&m.metadata),
+        show_query(m.queries.original()),
+        hex(m.queries.as_bytes()),
+        show_recs(&m.answers),
+        show_recs(&m.authorities),
+        show_recs(&m.additionals),
+        show_sig(m.signature.as_deref()),
+        show_edns(m.edns.as_ref())
+    )
+}
+
+// ---------------------------------------------------------------- the property's oracle on values
+
+fn wire_len(n: &Name) -> usize {
+    n.iter().map(|l| l.len() + 1).sum::<usize>() + 1
+}
+
+fn check_name(n: &Name, fails: &mut Vec<String>) {
+    if wire_len(n) > 255 {
+        fails.push(format!("decoded name exceeds 255 octets ({}): {}", wire_len(n), name_tok(n)));
+    }
+    if n.iter().any(|l| l.len() > 63 || l.is_empty()) {
+        fails.push(format!("decoded name has a label outside 1..=63: {}", name_tok(n)));
+    }
+}
+
+fn rdata_names<'a>(d: &'a RData, out: &mut Vec<Name>) {
+    match d {
+        RData::ANAME(n) => out.push(n.0.clone()),
+        RData::CNAME(n) => out.push(n.0.clone()),
+        RData::NS(n) => out.push(n.0.clone()),
+        RData::PTR(n) => out.push(n.0.clone()),
+        RData::MX(m) => out.push(m.exchange.clone()),
+        RData::SOA(s) => {
+            out.push(s.mname.clone());
+            out.push(s.rname.clone());
+        }
+        RData::SRV(s) => out.push(s.target.clone()),
+        RData::NAPTR(n) => out.push(n.replacement.clone()),
+        RData::SVCB(s) => out.push(s.target_name.clone()),
+        RData::HTTPS(s) => out.push(s.0.target_name.clone()),
+        RData::TSIG(t) => out.push(t.algorithm.to_name()),
+        RData::DNSSEC(DNSSECRData::RRSIG(s)) => out.push(s.input().signer_name.clone()),
+        RData::DNSSEC(DNSSECRData::SIG(s)) => out.push(s.input().signer_name.clone()),
+        RData::DNSSEC(DNSSECRData::NSEC(n)) => out.push(n.next_domain_name().clone()),
+        _ => {}
+    }
+}
+
+fn check_record(r: &Record, fails: &mut Vec<String>) {
+    check_name(&r.name, fails);
+    let mut v = vec![];
+    rdata_names(&r.data, &mut v);
+    for n in &v {
+        check_name(n, fails);
+    }
+}
+
+fn check_sections(q: &[&Query], secs: &[&[Record]], sig: Option<&Record<hickory_proto::rr::rdata::TSIG>>, fails: &mut Vec<String>) {
+    for q in q {
+        check_name(&q.name, fails);
+    }
+    for s in secs {
+        for r in *s {
+            check_record(r, fails);
+        }
+    }
+    if let Some(s) = sig {
+        check_name(&s.name, fails);
+        check_name(&s.data.algorithm.to_name(), fails);
+    }
+}
+
+// ---------------------------------------------------------------- which cases have a model side
+
+fn u16_at(b: &[u8], i: usize) -> Option<u16> {
+    Some(u16::from_be_bytes([*b.get(i)?, *b.get(i + 1)?]))
+}
+
+/// Offsets of the records of a message as far as they can be walked with the real `Name::read`:
+/// `(record start, type code, rdata start, rdata end)`; stops at the first thing that does not parse.
+fn walk(buf: &[u8]) -> (Vec<usize>, Vec<(usize, u16, usize, usize)>) {
+    let mut qs = vec![];
+    let mut rs = vec![];
+    if buf.len() < 12 {
+        return (qs, rs);
+    }
+    let qd = u16_at(buf, 4).unwrap() as usize;
+    let n = u16_at(buf, 6).unwrap() as usize + u16_at(buf, 8).unwrap() as usize + u16_at(buf, 10).unwrap() as usize;
+    let d0 = BinDecoder::new(buf);
+    let mut pos = 12usize;
+    for _ in 0..qd.min(4096) {
+        if pos > 0xFFFF || pos > buf.len() {
+            return (qs, rs);
+        }
+        let mut d = d0.clone(pos as u16);
+        if Name::read(&mut d).is_err() || d.len() < 4 {
+            return (qs, rs);
+        }
+        qs.push(pos);
+        pos = d.index() + 4;
+    }
+    for _ in 0..n.min(8192) {
+        if pos > 0xFFFF || pos > buf.len() {
+            break;
+        }
+        let mut d = d0.clone(pos as u16);
+        if Name::read(&mut d).is_err() {
+            break;
+        }
+        let i = d.index();
+        let (Some(t), Some(len)) = (u16_at(buf, i), u16_at(buf, i + 8)) else {
+            // type readable but header truncated: still report the type
+            if let Some(t) = u16_at(buf, i) {
+                rs.push((pos, t, buf.len(), buf.len()));
+            }
+            break;
+        };
+        let (s, e) = (i + 10, i + 10 + len as usize);
+        rs.push((pos, t, s.min(buf.len()), e.min(buf.len())));
+        if e > buf.len() {
+            break;
+        }
+        pos = e;
+    }
+    (qs, rs)
+}
+
+/// A message case has a model side unless the walk meets a record of an unmodelled type with
+/// RDLENGTH > 0 (RDLENGTH 0 never reaches the RDATA codec).
+fn msg_has_model(buf: &[u8], is_req: bool) -> bool {
+    if is_req && buf.len() >= 12 && u16_at(buf, 4) != Some(1) {
+        return true;
+    }
+    let (_, rs) = walk(buf);
+    !rs.iter().any(|(_, t, s, e)| !modelled(*t) && e > s)
+}
+
+// ---------------------------------------------------------------- exec
+
+struct Watch {
+    progress: AtomicU64,
+    current: Mutex<String>,
+}
+
+fn timed<T>(f: impl FnOnce() -> T) -> (T, Duration) {
+    let t0 = Instant::now();
+    let v = f();
+    (v, t0.elapsed())
+}
+
+/// Like `timed`, but a run that exceeds the budget is repeated (twice at most) and the fastest run
+/// counts, so that a scheduling hiccup on a loaded machine is not reported as a hang.
+fn timed_retry<T>(mut f: impl FnMut() -> T) -> (T, Duration) {
+    let (mut v, mut dt) = timed(&mut f);
+    let mut tries = 0;
+    while dt > BUDGET && tries < 2 {
+        let (v2, dt2) = timed(&mut f);
+        if dt2 < dt {
+            dt = dt2;
+        }
+        v = v2;
+        tries += 1;
+    }
+    (v, dt)
+}
+
+fn size_bucket(n: usize) -> &'static str {
+    match n {
+        0..=11 => "0-11",
+        12..=63 => "12-63",
+        64..=255 => "64-255",
+        256..=1023 => "256-1023",
+        1024..=8191 => "1k-8k",
+        _ => "8k-64k",
+    }
+}
+
+/// (implementation output, oracle failures, nontrivial, stats)
+fn exec_inner(t: &[&str]) -> Option<(String, Vec<String>, bool, Vec<String>)> {
+    let mut fails = vec![];
+    let mut stats = vec![];
+    let op = t[0].trim_end_matches('!');
+    let force_impl_only = t[0].ends_with('!');
+    let mut nontrivial = false;
+    let mut has_model = !force_impl_only;
+    let out = match (op, &t[1..]) {
+        ("name", [buf, pos]) => {
+            let buf = unhex(buf)?;
+            let pos: usize = pos.parse().ok()?;
+            if pos > buf.len() || pos > 0xFFFF || buf.len() > 0xFFFF {
+                return None;
+            }
+            let d0 = BinDecoder::new(&buf);
+            let mut d = d0.clone(pos as u16);
+            let (r, dt) = timed(|| Name::read(&mut d));
+            if dt > BUDGET {
+                fails.push(format!("Name::read took {dt:?} (> {BUDGET:?}) on {} bytes", buf.len()));
+            }
+            stats.push(format!("name.{}", if r.is_ok() { "ok" } else { "err" }));
+            match &r {
+                Ok(n) => {
+                    check_name(n, &mut fails);
+                    if d.index() > buf.len() || d.index() <= pos {
+                        fails.push(format!("Name::read left the decoder at {} (start {pos}, len {})", d.index(), buf.len()));
+                    }
+                    nontrivial = buf[pos..d.index().min(buf.len())].iter().any(|b| *b >= 0xC0);
+                    format!("ok {} {}", name_tok(n), d.index())
+                }
+                Err(_) => "err".into(),
+            }
+        }
+        ("rdata", [ty, buf, pos]) => {
+            let ty: u16 = ty.parse().ok()?;
+            let buf = unhex(buf)?;
+            let pos: usize = pos.parse().ok()?;
+            if pos > buf.len() || pos > 0xFFFF || buf.len() > 0xFFFF {
+                return None;
+            }
+            has_model &= modelled(ty);
+            let d0 = BinDecoder::new(&buf);
+            let d = d0.clone(pos as u16);
+            let (r, dt) = timed(|| RData::read(d, RecordType::from(ty)));
+            if dt > BUDGET {
+                fails.push(format!("RData::read({ty}) took {dt:?} (> {BUDGET:?}) on {} bytes", buf.len()));
+            }
+            stats.push(format!("rdata.type.{ty}.{}", if r.is_ok() { "ok" } else { "err" }));
+            match &r {
+                Ok(d) => {
+                    let mut v = vec![];
+                    rdata_names(d, &mut v);
+                    v.iter().for_each(|n| check_name(n, &mut fails));
+                    if u16::from(d.record_type()) != ty {
+                        fails.push(format!("RData::read({ty}) produced a value of type {}", u16::from(d.record_type())));
+                    }
+                    nontrivial = true;
+                    format!("ok {}", show_rdata(d))
+                }
+                Err(_) => "err".into(),
+            }
+        }
+        ("record", [buf, pos]) => {
+            let buf = unhex(buf)?;
+            let pos: usize = pos.parse().ok()?;
+            if pos > buf.len() || pos > 0xFFFF || buf.len() > 0xFFFF {
+                return None;
+            }
+            // model side only if the record's type (as far as it can be read) is modelled
+            {
+                let d0 = BinDecoder::new(&buf);
+                let mut d = d0.clone(pos as u16);
+                if Name::read(&mut d).is_ok() {
+                    if let (Some(ty), Some(len)) = (u16_at(&buf, d.index()), u16_at(&buf, d.index() + 8)) {
+                        if !modelled(ty) && len > 0 {
+                            has_model = false;
+                        }
+                    }
+                }
+            }
+            let d0 = BinDecoder::new(&buf);
+            let mut d = d0.clone(pos as u16);
+            let (r, dt) = timed(|| Record::read(&mut d));
+            if dt > BUDGET {
+                fails.push(format!("Record::read took {dt:?} (> {BUDGET:?}) on {} bytes", buf.len()));
+            }
+            match &r {
+                Ok(rec) => {
+                    check_record(rec, &mut fails);
+                    stats.push(format!("record.ok.type.{}", u16::from(rec.record_type())));
+                    nontrivial = true;
+                    format!("ok {} {}", show_record(rec), d.index())
+                }
+                Err(_) => {
+                    stats.push("record.err".into());
+                    "err".into()
+                }
+            }
+        }
+        ("msg", [buf]) => {
+            let buf = unhex(buf)?;
+            if buf.len() > 0xFFFF {
+                return None;
+            }
+            has_model &= msg_has_model(&buf, false);
+            let (r, dt) = timed_retry(|| Message::from_vec(&buf));
+            if dt > BUDGET {
+                fails.push(format!("Message::from_vec took {dt:?} (> {BUDGET:?}) on {} bytes", buf.len()));
+            }
+            stats.push(format!("msg.size.{}", size_bucket(buf.len())));
+            match &r {
+                Ok(m) => {
+                    let qs: Vec<&Query> = m.queries.iter().collect();
+                    check_sections(&qs, &[&m.answers, &m.authorities, &m.additionals], m.signature.as_deref(), &mut fails);
+                    stats.push("msg.ok".into());
+                    for r in m.all_sections() {
+                        stats.push(format!("msg.ok.rtype.{}", u16::from(r.record_type())));
+                    }
+                    if m.edns.is_some() {
+                        stats.push("msg.ok.edns".into());
+                    }
+                    if m.signature.is_some() {
+                        stats.push("msg.ok.tsig".into());
+                    }
+                    let compressed = buf[12.min(buf.len())..].iter().any(|b| *b >= 0xC0);
+                    nontrivial = compressed && m.all_sections().count() > 0;
+                    format!("ok {}", show_message(m))
+                }
+                Err(e) => {
+                    stats.push(format!("msg.err.{}", err_kind(e)));
+                    "err".into()
+                }
+            }
+        }
+        ("req", [buf]) => {
+            let buf = unhex(buf)?;
+            if buf.len() > 0xFFFF {
+                return None;
+            }
+            has_model &= msg_has_model(&buf, true);
+            let src: SocketAddr = "192.0.2.1:5353".parse().unwrap();
+            let (r, dt) = timed_retry(|| Request::from_bytes(buf.clone(), src, Protocol::Udp));
+            if dt > BUDGET {
+                fails.push(format!("Request::from_bytes took {dt:?} (> {BUDGET:?}) on {} bytes", buf.len()));
+            }
+            match &r {
+                Ok(m) => {
+                    check_sections(
+                        &[m.queries.original()],
+                        &[&m.answers, &m.authorities, &m.additionals],
+                        m.signature.as_deref(),
+                        &mut fails,
+                    );
+                    stats.push("req.ok".into());
+                    nontrivial = true;
+                    format!("ok {}", show_request(m))
+                }
+                Err(_) => {
+                    stats.push("req.err".into());
+                    "err".into()
+                }
+            }
+        }
+        _ => return None,
+    };
+    stats.push(format!("op.{op}"));
+    if !has_model {
+        stats.push(format!("impl-only.{op}"));
+        return Some(("~".into(), fails, nontrivial, stats));
+    }
+    Some((out, fails, nontrivial, stats))
+}
+
+fn err_kind(e: &hickory_proto::serialize::binary::DecodeError) -> String {
+    let s = format!("{e:?}");
+    s.split(|c: char| !c.is_ascii_alphanumeric()).next().unwrap_or("?").to_string()
+}
+
+fn exec(line: &str, rec: &mut Recorder, w: &Watch) {
+    *w.current.lock().unwrap() = line.chars().take(100_000).collect();
+    let t: Vec<&str> = line.split_whitespace().collect();
+    if t.is_empty() {
+        return;
+    }
+    match catch(|| exec_inner(&t)) {
+        Ok(Some((out, fails, nontrivial, stats))) => {
+            if out == "~" {
+                rec.impl_only += 1;
+            }
+            let idx = rec.case(line.to_string(), out);
+            for s in stats {
+                rec.stat(&s);
+            }
+            if nontrivial {
+                rec.nontrivial(idx);
+            }
+            for f in fails {
+                rec.fail(idx, f, "");
+            }
+        }
+        Ok(None) => rec.stat("skipped.unparsable-case"),
+        Err(p) => {
+            let idx = rec.case(line.to_string(), format!("panic {p}"));
+            rec.stat("panic");
+            rec.fail(idx, format!("panic: {p}"), "");
+        }
+    }
+    w.progress.fetch_add(1, Ordering::SeqCst);
+}
+
+// ---------------------------------------------------------------- generators
+
+const LABELS: &[&[u8]] = &[b"www", b"example", b"com", b"net", b"a", b"mail", b"ns1", b"_tcp", b"_sip", b"xn--abc", b"EXAMPLE", b"*"];
+
+fn gen_name(r: &mut Rng) -> Name {
+    let n = match r.below(10) {
+        0 => 0,
+        1..=6 => r.range(1, 4),
+        7 | 8 => r.range(4, 8),
+        _ => r.range(8, 40),
+    };
+    let mut labels: Vec<Vec<u8>> = vec![];
+    let mut total = 1usize;
+    for _ in 0..n {
+        let l: Vec<u8> = match r.below(8) {
+            0 => {
+                let len = r.range(1, 63) as usize;
+                r.bytes(len)
+            }
+            1 => vec![b'x'; *r.pick(&[1usize, 62, 63])],
+            _ => r.pick(LABELS).to_vec(),
+        };
+        if total + l.len() + 1 > 255 {
+            break;
+        }
+        total += l.len() + 1;
+        labels.push(l);
+    }
+    // a common suffix makes the encoder emit compression pointers
+    if r.chance(2, 3) && total + 13 <= 255 {
+        labels.push(b"example".to_vec());
+        labels.push(b"com".to_vec());
+    }
+    let mut n = Name::from_labels(labels.iter().map(|l| &l[..])).unwrap_or_else(|_| Name::root());
+    n.set_fqdn(true);
+    n
+}
+
+fn wire_name(n: &Name) -> Vec<u8> {
+    let mut v = vec![];
+    for l in n.iter() {
+        v.push(l.len() as u8);
+        v.extend_from_slice(l);
+    }
+    v.push(0);
+    v
+}
+
+fn pickb(r: &mut Rng, xs: &[&[u8]]) -> Vec<u8> {
+    xs[r.below(xs.len() as u64) as usize].to_vec()
+}
+
+fn cstr(r: &mut Rng, max: usize) -> Vec<u8> {
+    let n = r.below(max as u64 + 1) as usize;
+    let mut v = vec![n as u8];
+    v.extend(r.bytes(n));
+    v
+}
+
+fn bitmaps(r: &mut Rng) -> Vec<u8> {
+    let mut v = vec![];
+    let mut w = 0u16;
+    for _ in 0..r.range(0, 3) {
+        if w > 255 {
+            break;
+        }
+        let len = r.range(1, 32) as usize;
+        v.push(w as u8);
+        v.push(len as u8);
+        let mut bytes = r.bytes(len);
+        if bytes[len - 1] == 0 {
+            bytes[len - 1] = 1;
+        }
+        v.extend(bytes);
+        w += r.range(1, 100) as u16;
+    }
+    v
+}
+
+/// hand-assembled well-formed RDATA of the types that are built from wire seeds
+fn seed_rdata(r: &mut Rng, ty: u16) -> Vec<u8> {
+    let mut v = vec![];
+    match ty {
+        43 | 59 => {
+            v.extend(r.bytes(2));
+            v.push(*r.pick(&[8u8, 13, 15, 5]));
+            let (dt, n) = *r.pick(&[(1u8, 20usize), (2, 32), (4, 48)]);
+            v.push(dt);
+            v.extend(r.bytes(n));
+        }
+        48 | 60 => {
+            v.extend([*r.pick(&[1u8, 0]), *r.pick(&[0u8, 1, 0x80])]);
+            v.push(3);
+            v.push(*r.pick(&[8u8, 13, 15, 14]));
+            let n = r.range(1, 80) as usize;
+            v.extend(r.bytes(n));
+        }
+        25 => {
+            v.extend([0, 0]);
+            v.push(3);
+            v.push(*r.pick(&[8u8, 13, 5]));
+            let n = r.range(0, 40) as usize;
+            v.extend(r.bytes(n));
+        }
+        46 | 24 => {
+            v.extend(r.pick(&[1u16, 2, 6, 15, 48]).to_be_bytes());
+            v.push(*r.pick(&[8u8, 13, 15]));
+            v.push(r.below(5) as u8);
+            v.extend(r.bytes(12));
+            v.extend(r.bytes(2));
+            v.extend(wire_name(&gen_name(r)));
+            let n = r.range(0, 70) as usize;
+            v.extend(r.bytes(n));
+        }
+        47 => {
+            v.extend(wire_name(&gen_name(r)));
+            v.extend(bitmaps(r));
+        }
+        50 => {
+            v.push(1);
+            v.push(r.below(2) as u8);
+            v.extend((r.below(20) as u16).to_be_bytes());
+            v.extend(cstr(r, 8));
+            let h = r.range(1, 32) as usize;
+            v.push(h as u8);
+            v.extend(r.bytes(h));
+            v.extend(bitmaps(r));
+        }
+        51 => {
+            v.push(1);
+            v.push(0);
+            v.extend((r.below(20) as u16).to_be_bytes());
+            v.extend(cstr(r, 8));
+        }
+        250 => {
+            v.extend(wire_name(&Name::from_ascii(*r.pick(&["hmac-sha256.", "hmac-sha512.", "hmac-md5.sig-alg.reg.int.", "custom.alg."])).unwrap()));
+            v.extend([0, 0]);
+            v.extend(r.bytes(4));
+            v.extend(300u16.to_be_bytes());
+            let m = *r.pick(&[0usize, 16, 32, 64]);
+            v.extend((m as u16).to_be_bytes());
+            v.extend(r.bytes(m));
+            v.extend(r.bytes(2));
+            v.extend((*r.pick(&[0u16, 16, 17, 18])).to_be_bytes());
+            let o = *r.pick(&[0usize, 0, 6]);
+            v.extend((o as u16).to_be_bytes());
+            v.extend(r.bytes(o));
+        }
+        257 => {
+            v.push(*r.pick(&[0u8, 128]));
+            let tag: Vec<u8> = pickb(r, &[&b"issue"[..], &b"issuewild"[..], &b"iodef"[..], &b"foo9"[..]]);
+            v.push(tag.len() as u8);
+            v.extend_from_slice(&tag);
+            let val: Vec<u8> = pickb(r, &[&b"ca.example.net"[..], &b"ca.example.net; account=1"[..], &b";"[..], &b"mailto:sec@example.com"[..], &b"https://iodef.example.com/"[..]]);
+            v.extend_from_slice(&val);
+        }
+        64 | 65 => {
+            v.extend((r.below(3) as u16).to_be_bytes());
+            v.extend(wire_name(&gen_name(r)));
+            if r.chance(2, 3) {
+                // alpn
+                v.extend([0, 1]);
+                v.extend(6u16.to_be_bytes());
+                v.extend([2, b'h', b'2', 2, b'h', b'3']);
+            }
+            if r.chance(1, 2) {
+                v.extend([0, 3, 0, 2]);
+                v.extend(r.bytes(2));
+            }
+            if r.chance(1, 2) {
+                v.extend([0, 4, 0, 8]);
+                v.extend(r.bytes(8));
+            }
+            if r.chance(1, 3) {
+                v.extend([0x12, 0x34]);
+                let n = r.below(6) as usize;
+                v.extend((n as u16).to_be_bytes());
+                v.extend(r.bytes(n));
+            }
+        }
+        35 => {
+            v.extend(r.bytes(4));
+            let f: Vec<u8> = pickb(r, &[&b"U"[..], &b"S"[..], &b""[..], &b"A9"[..]]);
+            v.push(f.len() as u8);
+            v.extend_from_slice(&f);
+            let s: Vec<u8> = pickb(r, &[&b"E2U+sip"[..], &b"SIP+D2U"[..], &b""[..]]);
+            v.push(s.len() as u8);
+            v.extend_from_slice(&s);
+            let e: Vec<u8> = pickb(r, &[&b"!^.*$!sip:info@example.com!"[..], &b""[..]]);
+            v.push(e.len() as u8);
+            v.extend_from_slice(&e);
+            v.extend(wire_name(&gen_name(r)));
+        }
+        37 => {
+            v.extend((*r.pick(&[1u16, 2, 3, 253, 254, 9999])).to_be_bytes());
+            v.extend(r.bytes(2));
+            v.push(*r.pick(&[8u8, 13, 0]));
+            let n = r.range(1, 60) as usize;
+            v.extend(r.bytes(n));
+        }
+        62 => {
+            v.extend(r.bytes(4));
+            v.extend((r.below(4) as u16).to_be_bytes());
+            v.extend(bitmaps(r));
+        }
+        52 | 53 => {
+            v.push(r.below(4) as u8);
+            v.push(r.below(2) as u8);
+            v.push(r.below(3) as u8);
+            let n = r.range(1, 64) as usize;
+            v.extend(r.bytes(n));
+        }
+        44 => {
+            v.push(r.range(1, 4) as u8);
+            v.push(r.range(1, 2) as u8);
+            let n = *r.pick(&[20usize, 32]);
+            v.extend(r.bytes(n));
+        }
+        61 => {
+            let n = r.range(1, 80) as usize;
+            v.extend(r.bytes(n));
+        }
+        _ => {
+            let n = r.below(20) as usize;
+            v.extend(r.bytes(n));
+        }
+    }
+    v
+}
+
+fn gen_opt(r: &mut Rng) -> OPT {
+    let mut opts = vec![];
+    for _ in 0..r.below(4) {
+        let (code, data): (u16, Vec<u8>) = match r.below(7) {
+            0 => (5, pickb(r, &[&[8u8, 13, 15][..], &[5, 7, 8, 10, 13, 14, 15, 99], &[]])),
+            1 => {
+                let sp = *r.pick(&[0u8, 8, 20, 24, 32]);
+                let n = (sp as usize + 7) / 8;
+                let mut d = vec![0, 1, sp, r.below(33) as u8];
+                d.extend(r.bytes(n));
+                (8, d)
+            }
+            2 => {
+                let sp = *r.pick(&[0u8, 48, 56, 64, 128]);
+                let n = (sp as usize + 7) / 8;
+                let mut d = vec![0, 2, sp, 0];
+                d.extend(r.bytes(n));
+                (8, d)
+            }
+            3 => {
+                let n = r.below(12) as usize;
+                (3, r.bytes(n))
+            }
+            4 => (10, r.bytes(8)),
+            5 => {
+                let n = r.below(40) as usize;
+                (12, vec![0; n])
+            }
+            _ => {
+                let n = r.below(10) as usize;
+                (r.range(14, 70) as u16, r.bytes(n))
+            }
+        };
+        if let Ok(o) = EdnsOption::try_from((EdnsCode::from(code), &data[..])) {
+            opts.push((EdnsCode::from(code), o));
+        }
+    }
+    OPT::new(opts)
+}
+
+const TIER1: &[u16] = &[1, 28, 2, 5, 12, 65305, 15, 6, 16, 33, 13, 10, 99, 65280];
+const SEEDED: &[u16] = &[43, 59, 48, 60, 25, 46, 24, 47, 50, 51, 257, 64, 65, 35, 37, 62, 52, 53, 44, 61];
+
+fn gen_rdata(r: &mut Rng, ty: u16, rec: &mut Recorder) -> Option<RData> {
+    Some(match ty {
+        1 => RData::A(A(std::net::Ipv4Addr::from(r.next() as u32))),
+        28 => RData::AAAA(AAAA(std::net::Ipv6Addr::from(((r.next() as u128) << 64) | r.next() as u128))),
+        2 => RData::NS(NS(gen_name(r))),
+        5 => RData::CNAME(CNAME(gen_name(r))),
+        12 => RData::PTR(PTR(gen_name(r))),
+        65305 => RData::ANAME(ANAME(gen_name(r))),
+        15 => RData::MX(MX::new(r.next() as u16, gen_name(r))),
+        6 => RData::SOA(SOA::new(
+            gen_name(r),
+            gen_name(r),
+            r.next() as u32,
+            r.next() as i32,
+            r.next() as i32,
+            r.next() as i32,
+            r.next() as u32,
+        )),
+        16 => {
+            let k = r.below(4);
+            let strs: Vec<Vec<u8>> = (0..k)
+                .map(|_| {
+                    let n = *r.pick(&[0usize, 1, 5, 40, 255]);
+                    r.bytes(n)
+                })
+                .collect();
+            RData::TXT(TXT::from_bytes(strs.iter().map(|s| &s[..]).collect()))
+        }
+        33 => RData::SRV(SRV::new(r.next() as u16, r.next() as u16, r.next() as u16, gen_name(r))),
+        13 => {
+            let (a, bb) = (r.below(20) as usize, r.below(20) as usize);
+            RData::HINFO(HINFO::from_bytes(r.bytes(a).into_boxed_slice(), r.bytes(bb).into_boxed_slice()))
+        }
+        10 => {
+            let n = r.range(1, 40) as usize;
+            RData::NULL(NULL::with(r.bytes(n)))
+        }
+        t if SEEDED.contains(&t) => {
+            // typed value obtained by decoding a hand-assembled well-formed seed
+            let seed = seed_rdata(r, t);
+            match catch(|| RData::read(BinDecoder::new(&seed), RecordType::from(t))) {
+                Ok(Ok(d)) => {
+                    rec.stat(&format!("seed.ok.{t}"));
+                    d
+                }
+                _ => {
+                    rec.stat(&format!("seed.rejected.{t}"));
+                    return None;
+                }
+            }
+        }
+        t => {
+            let n = r.range(1, 30) as usize;
+            RData::Unknown { code: RecordType::from(t), rdata: NULL::with(r.bytes(n)) }
+        }
+    })
+}
+
+fn gen_record(r: &mut Rng, rec: &mut Recorder, tier1_only: bool) -> Option<Record> {
+    let ty = if tier1_only || r.chance(3, 5) { *r.pick(TIER1) } else { *r.pick(SEEDED) };
+    let d = gen_rdata(r, ty, rec)?;
+    let mut x = Record::from_rdata(gen_name(r), r.next() as u32, d);
+    if r.chance(1, 10) {
+        x.dns_class = *r.pick(&[DNSClass::CH, DNSClass::ANY, DNSClass::NONE, DNSClass::HS]);
+    }
+    Some(x)
+}
+
+fn gen_message(r: &mut Rng, rec: &mut Recorder, tier1_only: bool, request: bool) -> Vec<u8> {
+    let op = match r.below(10) {
+        0 | 1 => OpCode::Update,
+        2 => OpCode::Notify,
+        3 => OpCode::Status,
+        _ => OpCode::Query,
+    };
+    let mt = if request || r.chance(1, 3) { MessageType::Query } else { MessageType::Response };
+    let mut m = Message::new(r.next() as u16, mt, op);
+    m.metadata.authoritative = r.chance(1, 2);
+    m.metadata.truncation = r.chance(1, 8);
+    m.metadata.recursion_desired = r.chance(1, 2);
+    m.metadata.recursion_available = r.chance(1, 2);
+    m.metadata.authentic_data = r.chance(1, 4);
+    m.metadata.checking_disabled = r.chance(1, 4);
+    m.metadata.response_code = hickory_proto::op::ResponseCode::from(0, r.below(11) as u8);
+    let nq = if request { 1 } else { *r.pick(&[1u64, 1, 1, 1, 0, 2, 3]) };
+    for _ in 0..nq {
+        let mut q = Query::new(gen_name(r), RecordType::from(*r.pick(ALL_TYPES)));
+        q.set_query_class(*r.pick(&[DNSClass::IN, DNSClass::IN, DNSClass::CH, DNSClass::ANY, DNSClass::NONE]));
+        m.add_query(q);
+    }
+    let (na, nn, nx) = if request && !r.chance(1, 3) { (0, 0, r.below(2)) } else { (r.below(5), r.below(3), r.below(4)) };
+    for _ in 0..na {
+        if let Some(x) = gen_record(r, rec, tier1_only) {
+            m.add_answer(x);
+        }
+    }
+    for _ in 0..nn {
+        if let Some(x) = gen_record(r, rec, tier1_only) {
+            m.add_authority(x);
+        }
+    }
+    for _ in 0..nx {
+        if let Some(x) = gen_record(r, rec, tier1_only) {
+            m.add_additional(x);
+        }
+    }
+    if op == OpCode::Update && r.chance(1, 2) {
+        // RFC 2136 prerequisite / delete forms: RDLENGTH 0
+        let mut u = Record::update0(gen_name(r), 0, RecordType::from(*r.pick(&[1u16, 255, 16, 6])));
+        u.dns_class = *r.pick(&[DNSClass::ANY, DNSClass::NONE, DNSClass::IN]);
+        m.add_authority(u);
+    }
+    if r.chance(1, 2) {
+        let mut e = Edns::new();
+        e.set_max_payload(*r.pick(&[512u16, 1232, 4096, 100, 65535]));
+        e.set_version(r.below(2) as u8);
+        e.set_dnssec_ok(r.chance(1, 2));
+        e.set_rcode_high(*r.pick(&[0u8, 0, 0, 1, 255]));
+        *e.options_mut() = gen_opt(r);
+        m.set_edns(e);
+    }
+    if !tier1_only && r.chance(1, 6) {
+        let seed = seed_rdata(r, 250);
+        if let Ok(Ok(RData::TSIG(t))) = catch(|| RData::read(BinDecoder::new(&seed), RecordType::TSIG)) {
+            let mut sig = Record::from_rdata(gen_name(r), 0, t);
+            sig.dns_class = DNSClass::ANY;
+            m.set_signature(Box::new(sig));
+            rec.stat("seed.ok.250");
+        } else {
+            rec.stat("seed.rejected.250");
+        }
+    }
+    match catch(|| m.to_vec()) {
+        Ok(Ok(v)) => v,
+        _ => {
+            rec.stat("gen.emit-failed");
+            let mut v = r.bytes(12);
+            v.extend(wire_name(&gen_name(r)));
+            v.extend([0, 1, 0, 1]);
+            v
+        }
+    }
+}
+
+fn mutate(r: &mut Rng, buf: &mut Vec<u8>) -> &'static str {
+    if buf.is_empty() {
+        buf.push(r.byte());
+        return "grow";
+    }
+    let (_, recs) = walk(buf);
+    match r.below(12) {
+        0 | 1 => {
+            let i = r.below(buf.len() as u64) as usize;
+            buf[i] ^= 1 << r.below(8);
+            "bitflip"
+        }
+        2 => {
+            let n = r.below(buf.len() as u64) as usize;
+            buf.truncate(n);
+            "truncate"
+        }
+        3 => {
+            if buf.len() >= 12 {
+                let f = 4 + 2 * r.below(4) as usize;
+                let v: u16 = *r.pick(&[0u16, 1, 2, 3, 255, 0xFFFF]);
+                buf[f..f + 2].copy_from_slice(&v.to_be_bytes());
+            }
+            "count-edit"
+        }
+        4 | 5 => {
+            // RDLENGTH edit
+            if let Some((_, _, s, e)) = recs.get(r.below(recs.len().max(1) as u64) as usize).copied() {
+                if s >= 2 && s <= buf.len() {
+                    let len = (e - s) as i64;
+                    let nl = (len + *r.pick(&[-1i64, 1, -2, 2, 100, -len, 0xFFFF - len])).clamp(0, 0xFFFF) as u16;
+                    buf[s - 2..s].copy_from_slice(&nl.to_be_bytes());
+                }
+            }
+            "rdlength-edit"
+        }
+        6 | 7 => {
+            // pointer edit
+            let ptrs: Vec<usize> = (12.min(buf.len())..buf.len().saturating_sub(1)).filter(|i| buf[*i] >= 0xC0).collect();
+            if !ptrs.is_empty() {
+                let i = *r.pick(&ptrs);
+                let tgt: u16 = match r.below(5) {
+                    0 => i as u16,
+                    1 => (i as u16).saturating_sub(r.range(1, 12) as u16),
+                    2 => i as u16 + r.range(1, 20) as u16,
+                    3 => r.below(12) as u16,
+                    _ => r.below(buf.len() as u64 + 4) as u16,
+                };
+                let v = 0xC000 | (tgt & 0x3FFF);
+                buf[i..i + 2].copy_from_slice(&v.to_be_bytes());
+                "pointer-edit"
+            } else {
+                let i = r.below(buf.len() as u64) as usize;
+                buf[i] = 0xC0;
+                "pointer-insert"
+            }
+        }
+        8 => {
+            let i = r.below(buf.len() as u64) as usize;
+            buf[i] = *r.pick(&[0u8, 0x3F, 0x40, 0x80, 0xC0, 0xFF, 1, 63, 64]);
+            "byte-set"
+        }
+        9 => {
+            let i = r.below(buf.len() as u64 + 1) as usize;
+            let n = r.range(1, 4) as usize;
+            let ins = r.bytes(n);
+            buf.splice(i..i, ins);
+            "insert"
+        }
+        10 => {
+            let i = r.below(buf.len() as u64) as usize;
+            let n = (r.range(1, 4) as usize).min(buf.len() - i);
+            buf.drain(i..i + n);
+            "delete"
+        }
+        _ => {
+            // type edit: make some record another type
+            if let Some((p, _, s, _)) = recs.get(r.below(recs.len().max(1) as u64) as usize).copied() {
+                let _ = p;
+                if s >= 10 && s <= buf.len() {
+                    let t = *r.pick(ALL_TYPES);
+                    buf[s - 10..s - 8].copy_from_slice(&t.to_be_bytes());
+                }
+            }
+            "type-edit"
+        }
+    }
+}
+
+/// adversarial messages that are too large / slow for the list-based model: implementation only
+fn big_cases(thorough: bool) -> Vec<String> {
+    let mut v = vec![];
+    // longest possible pointer chain in the first 16 KiB, then as many names as fit, each of which
+    // walks the whole chain: the worst case of "time proportional to the input".
+    let chain = 8180usize; // last pointer sits at 23 + 2*8179 = 16381, the highest 14-bit-addressable even offset
+    let mut buf = vec![0u8; 12];
+    buf[0] = 0x12;
+    // question count filled in below
+    // offset 12: root label; 13: pad; then pointers p_k at 14+2k -> previous
+    buf.push(0);
+    buf.push(0);
+    let mut prev = 12u16;
+    for _ in 0..chain {
+        let at = buf.len() as u16;
+        buf.extend((0xC000 | prev).to_be_bytes());
+        prev = at;
+    }
+    // these bytes sit in the question section as garbage unless addressed; put them inside an
+    // unknown-type RDATA of the first answer instead: header(12) name(1)=root at 12 ...
+    // simpler: make the whole prefix one question whose name is the root at 12, then the chain
+    // bytes are the RDATA of an answer of unknown type.
+    let mut m = vec![0x12, 0x34, 0x80, 0, 0, 0, 0, 1, 0, 0, 0, 0];
+    m.push(0); // owner: root (offset 12)
+    m.extend([0xFF, 0x00, 0, 1, 0, 0, 0, 0]); // type 65280, class IN, ttl 0
+    let rdlen = 2 * chain;
+    m.extend((rdlen as u16).to_be_bytes()); // offset 21..23
+    let mut prev = 12u16;
+    for _ in 0..chain {
+        let at = m.len() as u16;
+        m.extend((0xC000 | prev).to_be_bytes());
+        prev = at;
+    }
+    // now NS records: owner = pointer to the chain's end, rdata = pointer to the chain's end
+    let mut n = 0u16;
+    while m.len() + 14 <= 65535 && (thorough || n < 600) {
+        m.extend((0xC000 | prev).to_be_bytes());
+        m.extend([0, 2, 0, 1, 0, 0, 0, 0, 0, 2]);
+        m.extend((0xC000 | prev).to_be_bytes());
+        n += 1;
+    }
+    let total = 1 + n;
+    m[6..8].copy_from_slice(&total.to_be_bytes());
+    v.push(format!("msg! {}", hex(&m)));
+    // the same with questions (QDCOUNT large): name + type + class = 6 bytes each
+    let mut q = m[..23 + rdlen].to_vec();
+    q[6..8].copy_from_slice(&1u16.to_be_bytes());
+    // questions must precede the answer, so instead append additionals of type A with pointer owners
+    let mut k = 0u16;
+    while q.len() + 16 <= 65535 && (thorough || k < 600) {
+        q.extend((0xC000 | prev).to_be_bytes());
+        q.extend([0, 1, 0, 1, 0, 0, 0, 0, 0, 4, 1, 2, 3, 4]);
+        k += 1;
+    }
+    q[10..12].copy_from_slice(&k.to_be_bytes());
+    v.push(format!("msg! {}", hex(&q)));
+    // 64 KiB of maximal counts and zeros / 0xFF / 0xC0
+    for fill in [0u8, 0xFF, 0xC0, 0x3F] {
+        let mut b = vec![0x00, 0x01, 0x00, 0x00, 0xFF, 0xFF, 0xFF, 0xFF, 0xFF, 0xFF, 0xFF, 0xFF];
+        b.resize(65535, fill);
+        v.push(format!("msg! {}", hex(&b)));
+        v.push(format!("req! {}", hex(&b)));
+    }
+    // 65535 root-name questions
+    let mut b = vec![0, 1, 0, 0, 0xFF, 0xFF, 0, 0, 0, 0, 0, 0];
+    while b.len() + 5 <= 65535 {
+        b.extend([0, 0, 1, 0, 1]);
+    }
+    v.push(format!("msg! {}", hex(&b)));
+    // a TXT / OPT record filling the message
+    let mut b = vec![0, 1, 0x80, 0, 0, 0, 0, 1, 0, 0, 0, 1, 0, 0, 16, 0, 1, 0, 0, 0, 0];
+    let n = 30000usize;
+    b.extend((n as u16).to_be_bytes());
+    b.extend(std::iter::repeat(0u8).take(n)); // 30000 empty strings
+    b.extend([0, 0, 41, 0x10, 0, 0, 0, 0, 0]);
+    let n2 = 65535 - b.len() - 2;
+    let n2 = n2 - n2 % 4;
+    b.extend((n2 as u16).to_be_bytes());
+    for _ in 0..n2 / 4 {
+        b.extend([0, 12, 0, 0]); // empty padding options
+    }
+    v.push(format!("msg! {}", hex(&b)));
+    v
+}
+
+fn generate(o: &Opts, rec: &mut Recorder, w: &Watch) {
+    let mut r = Rng::new(o.seed);
+    for l in big_cases(o.thorough()) {
+        exec(&l, rec, w);
+    }
+    // RData::read for every RecordType code on empty / short / seed / random input
+    for &t in ALL_TYPES {
+        for k in 0..(if o.thorough() { 40 } else { 8 }) {
+            let data = match k % 4 {
+                0 => vec![],
+                1 => seed_rdata(&mut r, t),
+                2 => {
+                    let mut s = seed_rdata(&mut r, t);
+                    mutate(&mut r, &mut s);
+                    s
+                }
+                _ => {
+                    let n = r.below(24) as usize;
+                    r.bytes(n)
+                }
+            };
+            exec(&format!("rdata {t} {} 0", hex(&data)), rec, w);
+        }
+    }
+    if o.thorough() {
+        // every single-byte mutation (all 256 values at every position) of 40 small seed messages
+        let mut seeds = 0;
+        while seeds < 40 {
+            let buf = gen_message(&mut r, rec, seeds % 2 == 0, false);
+            if buf.len() > 110 || buf.len() < 30 {
+                continue;
+            }
+            seeds += 1;
+            for i in 0..buf.len() {
+                for v in 0..=255u8 {
+                    if v != buf[i] {
+                        let mut m = buf.clone();
+                        m[i] = v;
+                        rec.stat("gen.exhaustive-byte");
+                        exec(&format!("msg {}", hex(&m)), rec, w);
+                    }
+                }
+            }
+        }
+    }
+    let n = o.n(2500, 150_000);
+    for i in 0..n {
+        let tier1 = i % 3 != 2;
+        let request = i % 5 == 4;
+        let mut buf = gen_message(&mut r, rec, tier1, request);
+        let op = if request || r.chance(1, 6) { "req" } else { "msg" };
+        match i % 4 {
+            0 => {
+                rec.stat("gen.valid");
+                exec(&format!("{op} {}", hex(&buf)), rec, w);
+                // pieces of the valid message through the other entry points
+                let (qs, rs) = walk(&buf);
+                if let Some(q) = qs.first() {
+                    exec(&format!("name {} {q}", hex(&buf)), rec, w);
+                }
+                for (p, t, s, e) in rs.iter().take(3) {
+                    exec(&format!("record {} {p}", hex(&buf)), rec, w);
+                    if e > s {
+                        exec(&format!("rdata {t} {} {s}", hex(&buf[..*e])), rec, w);
+                        if r.chance(1, 3) {
+                            exec(&format!("rdata {} {} {s}", r.pick(ALL_TYPES), hex(&buf[..*e])), rec, w);
+                        }
+                        if *s > 0 && r.chance(1, 2) {
+                            exec(&format!("name {} {}", hex(&buf), r.range(*s as u64, *e as u64 - 1)), rec, w);
+                        }
+                    }
+                }
+            }
+            1 | 2 => {
+                let k = r.range(1, 3);
+                for _ in 0..k {
+                    let m = mutate(&mut r, &mut buf);
+                    rec.stat(&format!("gen.mutation.{m}"));
+                }
+                buf.truncate(65535);
+                exec(&format!("{op} {}", hex(&buf)), rec, w);
+                if r.chance(1, 3) {
+                    let (_, rs) = walk(&buf);
+                    if let Some((p, _, _, _)) = rs.first() {
+                        exec(&format!("record {} {p}", hex(&buf)), rec, w);
+                    }
+                    let p = r.below(buf.len() as u64 + 1);
+                    exec(&format!("name {} {p}", hex(&buf)), rec, w);
+                }
+            }
+            _ => {
+                // random bytes, with or without a plausible header
+                rec.stat("gen.random");
+                let n = *r.pick(&[0usize, 5, 11, 12, 13, 17, 30, 60, 200]);
+                let mut v = r.bytes(n);
+                if n >= 12 && r.chance(2, 3) {
+                    v[2] &= 0x87;
+                    v[4] = 0;
+                    v[5] = r.below(3) as u8;
+                    for f in [6, 8, 10] {
+                        v[f] = 0;
+                        v[f + 1] = r.below(3) as u8;
+                    }
+                    // make label lengths small so that parsing gets somewhere
+                    for x in v[12..].iter_mut() {
+                        if r.chance(1, 2) {
+                            *x %= 8;
+                        }
+                    }
+                }
+                exec(&format!("{op} {}", hex(&v)), rec, w);
+                exec(&format!("record {} {}", hex(&v), r.below(v.len() as u64 + 1)), rec, w);
+                exec(&format!("name {} {}", hex(&v), r.below(v.len() as u64 + 1)), rec, w);
+            }
+        }
+    }
+}
+
+pub fn run(o: &Opts, rec: &mut Recorder) {
+    rec.rule = "valid messages of every RData variant built with the repo's own types (tier-1 types by constructor, the others by decoding hand-assembled well-formed seeds), then mutated (bit flips, truncation, count / RDLENGTH / type edits, pointer edits, inserts, deletes), random bytes, pieces of messages through Record::read / RData::read (every RecordType code) / Name::read at arbitrary offsets, and an adversarial corpus; a case is non-trivial when the decode succeeded and (msg) the message has records and compression pointers, (name) the name was reached through a pointer; distinct by case line".into();
+    let w = Arc::new(Watch { progress: AtomicU64::new(0), current: Mutex::new(String::new()) });
+    let done = Arc::new(AtomicU64::new(0));
+    // watchdog: a case that makes no progress for STUCK is a true hang — report it and abort the run
+    {
+        let (w, done) = (w.clone(), done.clone());
+        std::thread::spawn(move || {
+            let mut last = (0u64, Instant::now());
+            loop {
+                std::thread::sleep(Duration::from_millis(500));
+                if done.load(Ordering::SeqCst) == 1 {
+                    return;
+                }
+                let p = w.progress.load(Ordering::SeqCst);
+                if p != last.0 {
+                    last = (p, Instant::now());
+                } else if last.1.elapsed() > STUCK {
+                    let cur = w.current.lock().map(|s| s.clone()).unwrap_or_default();
+                    let _ = std::fs::create_dir_all("run/c01");
+                    let _ = std::fs::write("run/c01/HANG.case", &cur);
+                    eprintln!("HANG: no progress for {STUCK:?} on case #{p}: {}", &cur[..cur.len().min(2000)]);
+                    std::process::exit(3);
+                }
+            }
+        });
+    }
+    for l in o.pre_lines.clone() {
+        exec(&l, rec, &w);
+    }
+    rec.corpus_cases = rec.cases.len();
+    if !o.replay_only {
+        generate(o, rec, &w);
+    }
+    done.store(1, Ordering::SeqCst);
 }
